@@ -141,6 +141,9 @@ func runC14(c c14Case) (msg string, labels []string, nontrivial bool, problem st
 	if res.Allocs > 0 {
 		lab["allocations"] = true
 	}
+	if res.KnownLockReports > 0 {
+		lab["lock-order-report-of-listed-finding"] = true
+	}
 	nontrivial = res.Ops >= 60 && res.Allocs >= 5 && (res.Reloads > 0 || res.Swaps > 0)
 	if len(res.Violations) > 0 {
 		var out []string
